@@ -112,6 +112,8 @@ SPECS = [
     dict(name="determine_beta", py="samplers/smc/base.py:SMCSampler.determine_beta",
          objects={"self": ("SMCSampler", "cfg_"), "samples": ("SMCSamples", "s_")},
          params={"beta": "S", "beta_step": "S", "min_step": "S", "beta_tolerance": "S"}, round=True),
+    # ---------------------------------------------------------------- checkpoint dataset
+    dict(name="dump_pickle_to_hdf", py="utils.py:dump_pickle_to_hdf", mode="h5dump"),
     # ---------------------------------------------------------------- control predicates of SMCSampler.sample
     dict(name="should_checkpoint", py="samplers/smc/base.py:SMCSampler.sample.maybe_checkpoint", params={"force": "B"},
          extra_params={"checkpoint_every": "ON", "iterations": "N"}, extract={"first": "should_checkpoint", "count": 1},
@@ -143,5 +145,6 @@ GROUPS = {
     "SrcTarget": (["SrcSmcSamples"], ["smc_kernel_target", "mcmc_kernel_target"]),
     "SrcTransforms": ([], ["logit", "sigmoid", "bounded_init", "to_unit_interval", "from_unit_interval", "logit_forward", "logit_inverse",
                            "probit_forward", "probit_inverse", "periodic_forward", "periodic_inverse", "affine_forward", "affine_inverse"]),
+    "SrcDump": ([], ["dump_pickle_to_hdf"]),
     "SrcLoop": ([], ["should_checkpoint", "loop_exit", "init_min_step", "resume_loop_flag", "final_evidence"]),
 }
